@@ -13,4 +13,14 @@ CLAIMS = {
         text="Unbounded Lean theorems over any characteristic-0 field: fold_spec (three-way rule via the flat mirror n-1-i), fold_mass, fold_idem, fold_polarity for every shape; "
              "model (transcribed Folded::from_spectrum/into_spectrum) compared exactly with the implementation on dyadic data incl. NaN/inf and all four fills.",
         note=NOTE_COMMON + " f64 evaluation is outside the theorems; the correspondence uses values whose binary64 sums/halves are exact. CLI fill mapping is checked once the text model exists (C07)."),
+    "C04": dict(
+        text="Unbounded Lean theorems over any commutative additive monoid: marginalize_eq_spec (for every valid axis list in any order the result is the sum over the removed axes, "
+             "remaining axes in original order: the sort + `original - removed` shift is proved correct for any number of axes and unequal lengths), permutation invariance, "
+             "stepwise = joint, mass, keep = remove complement, the three errors in the code's order; model compared exactly with Spectrum::marginalize on all subsets x all orders of exhaustive small shapes.",
+        note=NOTE_COMMON + " The create/marginalize relation is stated with the create model (C01/C11 theorems) and explored through the CLI there; f64 summation order is outside the theorems (integer data is used so sums are exact)."),
+    "C13": dict(
+        text="Lean theorems: view_eq_chain (any option combination = four chained single-option runs in the order marginalize > project > mask > normalize), mask_spec "
+             "(exactly the all-zero and all-maximum entries), normalize_spec (sums to one, ratios preserved), view_noop; the pipeline model (transcribed View::run) is compared with the real "
+             "binary for all 16 option subsets, single vs chained through npy pipes.",
+        note=NOTE_COMMON + " Lossless npy in between is C07/C15's theorem; binary64 evaluation of projection/normalisation is compared within 2^-30 relative, not proved. clap's option parsing is exercised, not modelled."),
 }
